@@ -55,10 +55,10 @@ def m_csv_reader(ex, st, fn, args, kw):
     rd = Ref("CsvReader"); st.heap[rd.oid] = {"line_num": fresh(INT, "line_num")[0]}
     st.pc.append(lift(st.heap[rd.oid]["line_num"]).z >= 0)
     def raise_fault(ex_, s):
-        kind = fresh(BOOL, "is_csv_error")[0]
-        for s2, b in ex_.fork(s, kind):
-            s2.ghost["fault"] = True
-            yield s2, Raise(ex_.new_builtin_exc(s2, "Error" if b else "UnicodeDecodeError", ["malformed"]))
+        # csv.Error for malformed csv; decoding faults are UnicodeDecodeError, or the plain UnicodeError of the utf-16 / utf-32 decoders (missing BOM)
+        for cls in ("Error", "UnicodeDecodeError", "UnicodeError"):
+            s2 = s.copy(); s2.ghost["fault"] = True
+            yield s2, Raise(ex_.new_builtin_exc(s2, cls, ["malformed"]))
     st.ghost["reader_iter"] = FallibleIter(st.ghost["rows"], st.ghost["fail_at"], raise_fault)
     yield st, rd
 
